@@ -170,7 +170,7 @@ def kDematerialize : Kernel Unit :=
         | .mNext d => [.emit d]
         | .mErr e => [.fail e]
         | .mComplete => [.abortSelf, .complete]
-        | _ => [])
+        | _ => [.emit .unit])   -- ill-typed input (only reachable through the shrinker): harness maps it to Next(unit)
     enc := fun _ => .unit, dec := fun _ => () }
 
 /-- plain forwarding (first/last/element_at wrappers, map_to_any, tap's data path) -/
